@@ -361,8 +361,11 @@ def run(chk):
         extra2 = MORE2 + [random_scenario(rng, 2) for _ in range(6 if thorough else 2)]
         for name, runs, fs0 in extra2:
             full = schedules(runs, fs0, 0)
-            if thorough:
+            if thorough and len(full) <= 1500:
                 todo = [(s, "full") for s in full]
+            elif thorough:
+                todo = [(s, "reduced") for s in schedules(runs, fs0, 1)]
+                todo += [(s, "full") for s in rng.sample(full, 1500)]
             else:
                 todo = [(s, "reduced") for s in schedules(runs, fs0, 1)]
                 todo += [(s, "full") for s in rng.sample(full, min(40, len(full)))]
@@ -373,7 +376,7 @@ def run(chk):
         for name, runs, fs0 in three:
             red = schedules(runs, fs0, 1)
             state.setdefault("reduced3", {})[name] = len(red)
-            todo = red if thorough else rng.sample(red, min(150, len(red)))
+            todo = (red if len(red) <= 3000 else rng.sample(red, 3000)) if thorough else rng.sample(red, min(150, len(red)))
             for sched in todo:
                 one(chk, pool, state, name, runs, fs0, sched, gran="reduced")
             # a few fully fine-grained random interleavings of three runs
@@ -406,8 +409,11 @@ def run(chk):
                                "outcomes": state["outcomes"], "reduced_interleavings_3_runs": state.get("reduced3"),
                                "known_finding_class_hits": state["known_hits"],
                                "kernel_objects_built": pool.built, "rebuilt_after_failed_reset": pool.rebuilt}
-    chk.cov["exhaustive"] = ("all interleavings of the atomic steps for the 2-run core scenarios; "
-                             + ("all" if thorough else "a sample of the") + " reduced interleavings for 3 runs")
+    chk.cov["exhaustive"] = ("all interleavings of the atomic steps for the 2-run core scenarios"
+                             + (" and for every other 2-run scenario with at most 1500 of them; all reduced "
+                                "interleavings (at most 3000 per scenario) for 3 runs" if thorough else
+                                "; all reduced + a sample of the full interleavings for the other 2-run scenarios; "
+                                "a sample of the reduced interleavings for 3 runs"))
 
 
 def replay(payload):
